@@ -1846,7 +1846,11 @@ func CantAdd(mach am.Api, states am.S, args am.A) bool {
 	args2 := &am.ACheck{
 		CheckDone: make(chan struct{}),
 	}
-	mach.CanAdd(states, am.PassMerge(args, am.Pass(args2)))
+	res := mach.CanAdd(states, am.PassMerge(args, am.Pass(args2)))
+	if res == am.Canceled {
+		// rejected right away, or never queued (eg disposed)
+		return true
+	}
 	<-args2.CheckDone
 
 	return !args2.Canceled
@@ -1862,10 +1866,15 @@ func CantRemove(mach am.Api, states am.S, args am.A) bool {
 	args2 := &am.ACheck{
 		CheckDone: make(chan struct{}),
 	}
-	mach.CanRemove(states, am.PassMerge(args, am.Pass(args2)))
+	res := mach.CanRemove(states, am.PassMerge(args, am.Pass(args2)))
+	if res == am.Canceled {
+		// rejected right away, or never queued (eg disposed)
+		return true
+	}
 	<-args2.CheckDone
 
-	return args2.Canceled
+	// ACheck.Canceled carries the accepted flag
+	return !args2.Canceled
 }
 
 // CantRemove1 is a single-state version of [CantRemove].
